@@ -313,6 +313,10 @@ class Verdict:
                            "case": payload}, f, indent=1, default=str)
             log("VIOLATION property=%s replay=%s" % (self.pid, p))
             log("  key=%s what=%s" % (key, what[:400]))
+        if nviol:
+            os.makedirs(rdir, exist_ok=True)
+            with open(os.path.join(rdir, "all-seed%d-%s.json" % (self.seed, self.tier)), "w") as f:
+                json.dump([{"key": k, "what": w, "case": c} for (k, w, c) in self.violations], f, default=str)
         if nviol > shown:
             log("  ... %d violations in all, by key: %s" % (nviol, json.dumps(seen)))
         cov = {"states": max(self.states, 0), "transitions": max(self.transitions, 0),
